@@ -20,9 +20,9 @@ open SpyneModel.Derive SpyneModel.Generated
 
 /-- the switches measured on /repo have their good values: Mandatory copies, every class owns its `_variants`,
     a derived class gets a deep copy of `sqla_column_args` -/
-theorem good_facts : GoodFacts facts15 := ⟨by decide, by decide, by decide, by decide⟩
+theorem good_facts : GoodFacts facts15 := ⟨by decide, by decide, by decide, by decide, by decide⟩
 
-instance : DeepCopy facts15 := ⟨by decide⟩
+instance : DeepCopy facts15 := ⟨by decide, by decide⟩
 
 /-! ### histories keep the variants discipline -/
 
@@ -262,31 +262,41 @@ theorem insert_position (d : List (String × Nat)) (i : Nat) (k : String) (v : N
     keysOf (odictInsert d i k v) = listInsertAt ((keysOf d).filter (fun x => !(x == k))) i k :=
   keysOf_odictInsert d i k v
 
-/-- a class statement lists its fields in the order written, and that order does not depend on how an
-    unordered container would enumerate them (hash seed) -/
+/-- a class statement lists the fields of its `__mixin__` bases first (in base order, each mixin's flat fields in
+    their own order), then its own fields in the order written (those the mixins do not define); that order does not
+    depend on how an unordered container would enumerate them (hash seed) -/
 theorem class_statement_order (base : Option Nat) (name : String) (ns : Option String) (fields : List (String × Nat))
-    (perm : List Nat) (attrs : Option Kw) (h h' : Heap) (id : Nat) (hn : (keysOf fields).Nodup)
-    (hr : subclassOp facts15 base name ns fields perm attrs h = .ok h' id) :
-    ∃ cl, h'.cls[id]? = some cl ∧ keysOf cl.fields = keysOf fields := by
-  obtain ⟨cl, h1, h2, _⟩ := subclassOp_result facts15 base name ns fields perm attrs h h' id hr
+    (perm : List Nat) (attrs : Option Kw) (mixins : List Nat) (asMixin : Bool) (h h' : Heap) (id : Nat)
+    (hn : (keysOf fields).Nodup) (hm : (keysOf (mixinFields h mixins)).Nodup)
+    (hr : subclassOp facts15 base name ns fields perm attrs mixins asMixin h = .ok h' id) :
+    ∃ cl, h'.cls[id]? = some cl ∧ keysOf cl.fields
+      = keysOf (mixinFields h mixins)
+        ++ (keysOf fields).filter (fun k => !(keysOf (mixinFields h mixins)).contains k) := by
+  obtain ⟨cl, h1, h2, _⟩ := subclassOp_result facts15 base name ns fields perm attrs mixins asMixin h h' id hr
   refine ⟨cl, h1, ?_⟩
   rw [h2]
-  have : declaredFields facts15 perm fields = odictFromList fields := by
+  have hd : declaredFields facts15 perm fields = odictFromList fields := by
     simp only [declaredFields]
     have : facts15.dictOrdered = true := by decide
     simp [this]
-  rw [this]
-  exact keysOf_odictFromList fields hn
+  have hmo : facts15.mixinOrder = .declared := by decide
+  simp only [prependMixins, hmo, hd]
+  rw [keysOf_prepend _ _ hm, keysOf_odictFromList fields hn]
 
 theorem class_statement_seed_independent (op1 op2 : List Nat) (base : Option Nat) (name : String) (ns : Option String)
-    (fields : List (String × Nat)) (attrs : Option Kw) (h : Heap) :
-    subclassOp facts15 base name ns fields op1 attrs h = subclassOp facts15 base name ns fields op2 attrs h := by
+    (fields : List (String × Nat)) (attrs : Option Kw) (mixins : List Nat) (asMixin : Bool) (h : Heap) :
+    subclassOp facts15 base name ns fields op1 attrs mixins asMixin h
+      = subclassOp facts15 base name ns fields op2 attrs mixins asMixin h := by
   have : ∀ perm, declaredFields facts15 perm fields = odictFromList fields := by
     intro perm
     simp only [declaredFields]
     have : facts15.dictOrdered = true := by decide
     simp [this]
   simp only [subclassOp, this]
+
+/-- `customize(prot=p)`: the protocol's `type_attrs` dict is what it was, after any operation -/
+theorem protocol_defaults_untouched (fuel : Nat) (h : Heap) (ih : Inv h) (op : Op) :
+    (apply facts15 fuel h op).heap.prots = h.prots := (frame_step fuel h ih op).prots
 
 /-- flat type info (what every protocol and the schema generator iterate): parents first ... -/
 theorem flat_parents_first (fuel : Nat) (h : Heap) (c e : Nat) (cl : Cls) (hc : h.cls[c]? = some cl)
@@ -304,14 +314,14 @@ theorem flat_then_own (fuel : Nat) (h : Heap) (c : Nat) (cl : Cls) (hc : h.cls[c
 
 /-! ### non-vacuity: a concrete history (pool slots 0.. are Integer, Unicode, Decimal, Integer32, ...) -/
 
-def s1 := apply facts15 1000 (initHeap facts15) (.subclass none "A" (some "ns") [("a", 0), ("b", 1)] [] none)
-def s2 := apply facts15 1000 s1.heap (.subclass (some 12) "B" none [("c", 3)] [] (some [("foo", .int 42)]))
-def s3 := apply facts15 1000 s2.heap (.customize 12 [("min_occurs", .int 1)] none none)
-def s4 := apply facts15 1000 s3.heap (.customize 13 [] none (some [("nillable", .bool false)]))
+def s1 := apply facts15 1000 (initHeap facts15) (.subclass none "A" (some "ns") [("a", 0), ("b", 1)] [] none [] false)
+def s2 := apply facts15 1000 s1.heap (.subclass (some 12) "B" none [("c", 3)] [] (some [("foo", .int 42)]) [] false)
+def s3 := apply facts15 1000 s2.heap (.customize 12 [("min_occurs", .int 1)] none none none)
+def s4 := apply facts15 1000 s3.heap (.customize 13 [] none (some [("nillable", .bool false)]) none)
 def s5 := apply facts15 1000 s4.heap (.append 13 "w" 1)
 def s6 := apply facts15 1000 s5.heap (.array 0 none [] false false)
 def s7 := apply facts15 1000 s6.heap (.mandatory 21)
-def s8 := apply facts15 1000 s7.heap (.customize 3 [("ge", .int 0)] none none)
+def s8 := apply facts15 1000 s7.heap (.customize 3 [("ge", .int 0)] none none none)
 
 example : s1.heap.cls.length = 13 ∧ s3.heap.cls.length = 15 ∧ s4.heap.cls.length = 20 := by decide +kernel
 -- B's variants are B's, A's are A's
@@ -329,26 +339,33 @@ example : ((s7.heap.cls[23]?).bind (fun c => (c.fields.head?).map (fun p => attr
 -- Integer32(ge=0) keeps the length guard of Integer32
 example : attrOf s8.heap 25 "max_str_len" = attrOf s8.heap 3 "max_str_len" ∧ attrOf s8.heap 25 "ge" = some (.int 0) := by
   decide +kernel
+-- class M1: __mixin__ = True; x, y   class M2 (mixin): z   class K(M1, M2, A): own c, y  ->  x, y, z, c  (A's fields by base)
+def m1 := apply facts15 1000 (initHeap facts15) (.subclass none "M1" (some "ns") [("x", 0), ("y", 1)] [] none [] true)
+def m2 := apply facts15 1000 m1.heap (.subclass none "M2" (some "ns") [("z", 0)] [] none [] true)
+def m3 := apply facts15 1000 m2.heap (.subclass none "A" (some "ns") [("a", 0)] [] none [] false)
+def m4 := apply facts15 1000 m3.heap (.subclass (some 14) "K" (some "ns") [("c", 0), ("y", 0)] [] none [12, 13] false)
+example : (m4.heap.cls[15]?).map (fun c => keysOf c.fields) = some ["x", "y", "z", "c"]
+    ∧ flatKeys m4.heap 15 = ["a", "x", "y", "z", "c"] := by decide +kernel
 -- A.customize(child_attrs_all={min_occurs: 1}, child_attrs={later: {min_occurs: 2}}); A.append_field('later', Integer):
 -- in the variant the field carries the specific value
-def d1 := apply facts15 1000 (initHeap facts15) (.subclass none "A" none [("a", 0)] [] none)
-def d2 := apply facts15 1000 d1.heap (.customize 12 [] (some [("later", [("min_occurs", .int 2)])]) (some [("min_occurs", .int 1)]))
+def d1 := apply facts15 1000 (initHeap facts15) (.subclass none "A" none [("a", 0)] [] none [] false)
+def d2 := apply facts15 1000 d1.heap (.customize 12 [] (some [("later", [("min_occurs", .int 2)])]) (some [("min_occurs", .int 1)]) none)
 def d3 := apply facts15 1000 d2.heap (.append 12 "later" 0)
 example : ((d3.heap.cls[13]?).bind (fun c => (odictGet c.fields "later").map (fun t => attrOf d3.heap t "min_occurs")))
     = some (some (.int 2))
     ∧ ((d3.heap.cls[13]?).bind (fun c => (odictGet c.fields "a").map (fun t => attrOf d3.heap t "min_occurs")))
     = some (some (.int 1)) := by decide +kernel
 -- Unicode(pattern='[a-z]+')(pattern='[0-9]+'): validation follows the second pattern
-def p1 := apply facts15 1000 (initHeap facts15) (.customize 1 [("pattern", .str "[a-z]+")] none none)
-def p2 := apply facts15 1000 p1.heap (.customize 12 [("pattern", .str "[0-9]+")] none none)
+def p1 := apply facts15 1000 (initHeap facts15) (.customize 1 [("pattern", .str "[a-z]+")] none none none)
+def p2 := apply facts15 1000 p1.heap (.customize 12 [("pattern", .str "[0-9]+")] none none none)
 example : attrOf p2.heap 13 "_pattern_re" = some (.str "[0-9]+") ∧ attrOf p2.heap 12 "_pattern_re" = some (.str "[a-z]+") := by
   decide +kernel
 example : (p2.heap.cls[13]?).map (fun c => (verdicts p2.heap c).drop 15) =
     some [false, false, false, false, false, false, true, true, false] := by decide +kernel
 -- Code = Unicode(max_len=32); Code(pk=True); Code(min_len=2): only the pk flavour is a primary key
-def c1 := apply facts15 1000 (initHeap facts15) (.customize 1 [("max_len", .int 32)] none none)
-def c2 := apply facts15 1000 c1.heap (.customize 12 [("pk", .bool true)] none none)
-def c3 := apply facts15 1000 c2.heap (.customize 12 [("min_len", .int 2), ("autoincrement", .bool true)] none none)
+def c1 := apply facts15 1000 (initHeap facts15) (.customize 1 [("max_len", .int 32)] none none none)
+def c2 := apply facts15 1000 c1.heap (.customize 12 [("pk", .bool true)] none none none)
+def c3 := apply facts15 1000 c2.heap (.customize 12 [("min_len", .int 2), ("autoincrement", .bool true)] none none none)
 example : (obs1 facts15 c3.heap 12).map (·.col) = some (some [])
     ∧ (obs1 facts15 c3.heap 13).map (·.col) = some (some [("primary_key", .bool true)])
     ∧ (obs1 facts15 c3.heap 14).map (·.col) = some (some [("autoincrement", .bool true)])
